@@ -154,26 +154,75 @@ def v3_interp(cfg, dgram, engines):
     return out
 
 
+def _has_v6():
+    try:
+        s = socket.socket(socket.AF_INET6, socket.SOCK_DGRAM)
+        s.bind(("::1", 0))
+        s.close()
+        return True
+    except OSError:
+        return False
+
+
+HAS_V6 = _has_v6()
+# Transport configurations the sessions rotate through (none of the properties depends on them, so every property must hold under
+# each): IPv4 / IPv6 loopback, default / explicit ToS and socket buffer sizes.  (host, family, tos, send_buffer, recv_buffer)
+NETS = [("127.0.0.1", socket.AF_INET, 0, 0, 0), ("127.0.0.1", socket.AF_INET, 0, 0, 0), ("127.0.0.1", socket.AF_INET, 0x28, 65536, 262144)]
+if HAS_V6:
+    NETS += [("::1", socket.AF_INET6, 0, 0, 0), ("::1", socket.AF_INET6, 0, 32768, 131072)]
+_net_counter = [0]
+
+
+def next_net():
+    _net_counter[0] += 1
+    return NETS[_net_counter[0] % len(NETS)]
+
+
+def agent_socket(net):
+    """(bound agent socket, address text as the library wants it, host for SnmpSession(addr=...))"""
+    host, fam = net[0], net[1]
+    a = socket.socket(fam, socket.SOCK_DGRAM)
+    a.bind((host, 0))
+    port = a.getsockname()[1]
+    api_host = "[::1]" if fam == socket.AF_INET6 else host
+    return a, "%s:%d" % (api_host, port), api_host, port
+
+
+class DeadSocket:
+    def __init__(self, exc):
+        self._exc = exc
+
+    def __getattr__(self, name):
+        def fail(*a, **k):
+            raise self._exc
+        return fail
+
+
 class RawSession:
     """One client socket + one agent socket. All calls are recorded."""
     _next_sid = [0]
 
-    def __init__(self, rec, cfg, sid=1, maxbuf=4080):
+    def __init__(self, rec, cfg, sid=1, maxbuf=4080, net=None):
         from gufo.snmp import _fast
         self.rec, self.cfg, self.sid = rec, cfg, sid
-        self.agent = socket.socket(socket.AF_INET, socket.SOCK_DGRAM)
-        self.agent.bind(("127.0.0.1", 0))
+        self.net = net or next_net()
+        self.agent, self.addr, _, _ = agent_socket(self.net)
         self.agent.setblocking(False)
-        self.addr = "127.0.0.1:%d" % self.agent.getsockname()[1]
+        tos, sb, rb = self.net[2], self.net[3], self.net[4]
         self.peer = None
         self.engines = set()
-        if cfg.ver == "v1":
-            self.sock = _fast.SnmpV1ClientSocket(self.addr, cfg.community, 0, 0, 0, 0)
-        elif cfg.ver == "v2c":
-            self.sock = _fast.SnmpV2cClientSocket(self.addr, cfg.community, 0, 0, 0, 0)
-        else:
-            self.sock = _fast.SnmpV3ClientSocket(self.addr, cfg.engine, cfg.user, cfg.auth_code(), cfg.akm,
-                                                 cfg.priv_code(), cfg.pkm, 0, 0, 0, 0)
+        try:
+            if cfg.ver == "v1":
+                self.sock = _fast.SnmpV1ClientSocket(self.addr, cfg.community, tos, sb, rb, 0)
+            elif cfg.ver == "v2c":
+                self.sock = _fast.SnmpV2cClientSocket(self.addr, cfg.community, tos, sb, rb, 0)
+            else:
+                self.sock = _fast.SnmpV3ClientSocket(self.addr, cfg.engine, cfg.user, cfg.auth_code(), cfg.akm,
+                                                     cfg.priv_code(), cfg.pkm, tos, sb, rb, 0)
+        except (OSError, RuntimeError) as e:
+            # the constructor refused a legal transport configuration (the key material of cfg is the caller's business: ValueError
+            # is left to propagate): every call on this session then raises that error, which the trace judge sees as a refusal
+            self.sock = DeadSocket(e)
             if cfg.engine:
                 self.engines.add(cfg.engine)
         e = dict(ev="Open", sid=sid, maxbuf=maxbuf, apiuser=text(cfg.user), apiauth=cfg.auth, apipriv=cfg.priv)
